@@ -46,7 +46,7 @@ KF(ev) ==
          -> "C03-take-no-validity-null-index"   \* same cause: the value under the null slot is out of range
     [] ev.op \in {"filter", "take", "interleave"} /\ ev.zw /\ ~ev.err /\ ev.out = <<>>
          -> "C03-zero-width-length-lost"
-    [] ev.op = "zip" /\ ev.fam = "view" /\ ev.as /\ ev.bs /\ ~ev.err /\ Len(ev.out) = Len(ev.mask)
+    [] ev.op = "zip" /\ ev.fam = "view" /\ ev.as /\ ev.bs /\ ev.a_nbuf > 0 /\ ev.b_nbuf > 0 /\ ev.b_inline /\ ~ev.err /\ Len(ev.out) = Len(ev.mask)
        /\ (\A i \in 1..Len(ev.mask) : ev.mask[i] = 1 => Nrm(ev, ev.out)[i] = Nrm(ev, ev.a)[1])
          -> "C03-zip-view-scalars-inline-falsy-corrupted"   \* only rows taken from the falsy scalar are wrong
     [] ev.op = "concat" /\ ev.fam = "ree" /\ ev.err /\ Len(ev.cols) >= 2
